@@ -121,7 +121,10 @@ type shardNotificationsManager struct {
 	nm                 *notifications
 	backoff            backoff.BackOff
 	lastOffsetReceived int64
-	initialized        bool
+	// Whether lastOffsetReceived was taken from a batch. The commit offset of an empty shard is -1,
+	// which is a valid position to resume from, so the value alone cannot tell.
+	hasLastOffset bool
+	initialized   bool
 	log                *slog.Logger
 }
 
@@ -182,6 +185,7 @@ func (snm *shardNotificationsManager) multiplexNotificationBatch(nb *proto.Notif
 		snm.initialized = true
 		snm.nm.initWaitGroup.Done()
 		snm.lastOffsetReceived = nb.Offset
+		snm.hasLastOffset = true
 		return nil
 	}
 
@@ -220,6 +224,7 @@ func (snm *shardNotificationsManager) multiplexNotificationBatchOnce(notificatio
 	}
 
 	snm.lastOffsetReceived = nb.Offset
+	snm.hasLastOffset = true
 	return nil
 }
 
@@ -232,6 +237,16 @@ func (snm *shardNotificationsManager) multiplexNotifications(notifications proto
 	}
 }
 
+// startOffsetExclusive is the position to resume from: the offset of the last batch received,
+// if any (including the first, empty batch that carries the commit offset of the shard).
+func (snm *shardNotificationsManager) startOffsetExclusive() *int64 {
+	if !snm.hasLastOffset {
+		return nil
+	}
+	offset := snm.lastOffsetReceived
+	return &offset
+}
+
 func (snm *shardNotificationsManager) getNotifications() error {
 	leader := snm.nm.shardManager.Leader(snm.shard)
 
@@ -240,14 +255,9 @@ func (snm *shardNotificationsManager) getNotifications() error {
 		return err
 	}
 
-	var startOffsetExclusive *int64
-	if snm.lastOffsetReceived >= 0 {
-		startOffsetExclusive = &snm.lastOffsetReceived
-	}
-
 	notifications, err := client.GetNotifications(snm.ctx, &proto.NotificationsRequest{
 		Shard:                snm.shard,
-		StartOffsetExclusive: startOffsetExclusive,
+		StartOffsetExclusive: snm.startOffsetExclusive(),
 	})
 	if err != nil {
 		if snm.ctx.Err() != nil {
